@@ -1,5 +1,6 @@
 import St4sd.Lemmas.C04Tree
 import St4sd.Lemmas.C04Flatten
+import St4sd.Lemmas.C04User
 /-!
 # C04 — Resolved component configuration follows the documented layering order
 
@@ -278,6 +279,101 @@ theorem variables_eq_spec_own (d : Desc) (P : S) (c : Comp) (x : S) :
 
 /-- with `include_default=True` the variables are the ones of `variables_eq_spec` -/
 theorem varsOfF_incl (d : Desc) (P : S) (c : Comp) : varsOfF d P c true = varsOf d P c := rfl
+
+/-! ### user-supplied variables: one layer between the platform's settings and the component -/
+
+theorem firstSome_append (a b : List (Option Val)) :
+    firstSome (a ++ b) = match firstSome a with | some v => some v | none => firstSome b := by
+  induction a with
+  | nil => simp [firstSome]
+  | cons h t ih =>
+    cases h with
+    | none => simpa [firstSome] using ih
+    | some v => simp [firstSome]
+
+/-- **user_variables_eq_spec**: after `_patch_in_variable_files` a variable of a component (stage below the
+number of stages, platform `P ≠ default` of the description) comes from the first of: component override for
+`P`, component, the USER's variables for the stage, the user's global variables, platform stage, platform
+global, default stage, default global that defines it - user-supplied variables outrank every global and
+stage setting of both platforms and are outranked by the component's own definition and its override. -/
+theorem user_variables_eq_spec (d : Desc) (uv : UserVars) (n : Nat) (P : S) (c : Comp) (x : S)
+    (hP : P ≠ defaultName) (hmem : P ∈ d.platforms) (hdef : defaultName ∈ d.platforms) (hi : c.stage < n) :
+    get (varsOf (patchUser d uv n) P c) x =
+      firstSome [get (ovrVars c P) x, get (compVars c) x, get (stageOf uv c.stage) x, get uv.global x,
+                 get (stageVars d P c.stage) x, get (globalVars d P) x,
+                 get (stageVars d defaultName c.stage) x, get (globalVars d defaultName) x] := by
+  rw [variables_eq_spec _ P c x hP, stageVars_patchUser d uv n P hmem c.stage hi, globalVars_patchUser d uv n P hmem,
+    stageVars_patchUser d uv n defaultName hdef c.stage hi, globalVars_patchUser d uv n defaultName hdef]
+  simp only [get_update, userFor, stageOf]
+  cases get (ovrVars c P) x <;> cases get (compVars c) x <;> cases get ((lookupN uv.stages c.stage).getD []) x <;>
+    cases get uv.global x <;> cases get (stageVars d P c.stage) x <;> cases get (globalVars d P) x <;>
+    cases get (stageVars d defaultName c.stage) x <;> cases get (globalVars d defaultName) x <;> rfl
+
+/-- … and on the default platform -/
+theorem user_variables_eq_spec_default (d : Desc) (uv : UserVars) (n : Nat) (c : Comp) (x : S)
+    (hdef : defaultName ∈ d.platforms) (hi : c.stage < n) :
+    get (varsOf (patchUser d uv n) defaultName c) x =
+      firstSome [get (ovrVars c defaultName) x, get (compVars c) x, get (stageOf uv c.stage) x, get uv.global x,
+                 get (stageVars d defaultName c.stage) x, get (globalVars d defaultName) x] := by
+  rw [variables_eq_spec_default, stageVars_patchUser d uv n defaultName hdef c.stage hi,
+    globalVars_patchUser d uv n defaultName hdef]
+  simp only [get_update, userFor, stageOf]
+  cases get (ovrVars c defaultName) x <;> cases get (compVars c) x <;>
+    cases get ((lookupN uv.stages c.stage).getD []) x <;> cases get uv.global x <;>
+    cases get (stageVars d defaultName c.stage) x <;> cases get (globalVars d defaultName) x <;> rfl
+
+private theorem user_files_fold (i : Nat) (x : S) : ∀ (fs : List UserVars) (acc : UserVars), PlainUser acc →
+    (∀ f ∈ fs, PlainUser f) →
+    get (stageOf (fs.foldl mergeUser acc) i) x =
+      firstSome (fs.reverse.map (fun f => get (stageOf f i) x) ++ [get (stageOf acc i) x]) ∧
+    get (fs.foldl mergeUser acc).global x =
+      firstSome (fs.reverse.map (fun f => get f.global x) ++ [get acc.global x]) := by
+  intro fs
+  induction fs with
+  | nil =>
+    intro acc _ _
+    simp only [List.foldl_nil, List.reverse_nil, List.map_nil, List.nil_append]
+    constructor
+    · cases get (stageOf acc i) x <;> rfl
+    · cases get acc.global x <;> rfl
+  | cons f r ih =>
+    intro acc hacc hfs
+    have hf : PlainUser f := hfs f (by simp)
+    have hr := ih (mergeUser acc f) (plain_mergeUser acc f hacc hf) (fun g hg => hfs g (by simp [hg]))
+    simp only [List.foldl_cons, List.reverse_cons, List.map_append, List.map_cons, List.map_nil, List.append_assoc]
+    constructor
+    · rw [hr.1, firstSome_append, firstSome_append, get_stageOf_mergeUser acc f hacc hf]
+      cases firstSome (r.reverse.map (fun f => get (stageOf f i) x)) <;> cases get (stageOf f i) x <;>
+        cases get (stageOf acc i) x <;> rfl
+    · rw [hr.2, firstSome_append, firstSome_append, get_global_mergeUser acc f hacc hf]
+      cases firstSome (r.reverse.map (fun f => get f.global x)) <;> cases get f.global x <;>
+        cases get acc.global x <;> rfl
+
+/-- **user_files_eq_spec**: `layer_many_variable_files` layers any number of variable files scope by scope and
+name by name: in the `global` scope and in every `stages[i]` scope a name has the value of the LAST file that
+defines it in that scope - a later file only shadows the names it defines itself; a name that only an earlier
+file defines (in a scope for which the later files have a section too) is kept. -/
+theorem user_files_eq_spec (fs : List UserVars) (h : ∀ f ∈ fs, PlainUser f) (i : Nat) (x : S) :
+    get (stageOf (layerUserFiles fs) i) x = firstSome (fs.reverse.map (fun f => get (stageOf f i) x)) ∧
+    get (layerUserFiles fs).global x = firstSome (fs.reverse.map (fun f => get f.global x)) := by
+  have hf := user_files_fold i x fs ⟨[], []⟩ plainUser_empty h
+  unfold layerUserFiles
+  constructor
+  · rw [hf.1, firstSome_append]
+    cases firstSome (fs.reverse.map (fun f => get (stageOf f i) x)) <;> rfl
+  · rw [hf.2, firstSome_append]
+    cases firstSome (fs.reverse.map (fun f => get f.global x)) <;> rfl
+
+/-- **user_files_layering**: what the user-supplied layer (of `user_variables_eq_spec`) says about a name in
+stage `i` when several files were given: the last file that defines it for the stage, otherwise the last file
+that defines it globally. -/
+theorem user_files_layering (fs : List UserVars) (h : ∀ f ∈ fs, PlainUser f) (i : Nat) (x : S) :
+    get (userFor (layerUserFiles fs) i) x =
+      firstSome (fs.reverse.map (fun f => get (stageOf f i) x) ++ fs.reverse.map (fun f => get f.global x)) := by
+  have hs := user_files_eq_spec fs h i x
+  rw [firstSome_append, ← hs.1, ← hs.2]
+  simp only [userFor, get_update, stageOf]
+  cases Tree.get ((lookupN (layerUserFiles fs).stages i).getD []) x <;> rfl
 
 /-- **platform isolation**, for every combination of the keyword arguments of
 `get_component_configuration`: the resolution for `P` reads the description only through the platform
@@ -877,5 +973,133 @@ example :
      | .error _ => []) = "<ds> wpg".toList ∧
     argumentsOf (resolve dF ['p'] 0 ['c'] false 60) = "<ds> wpg".toList := by
   decide +kernel
+
+/-! ### siblings in the fold, several variable files: non-vacuity -/
+
+/-- the fold visits the components one by one: every flattened component is `flatComp` of the flattened
+variable sections and of ONE component of the description, and every component has its flattened form -/
+theorem flatComps_pointwise (fuel : Nat) (d : Desc) (P : S) (prim inject : Bool) (fv : FlatVars) :
+    ∀ (cs cs' : List Comp), flatComps fuel d P prim inject fv cs = .ok cs' →
+      (∀ c' ∈ cs', ∃ c ∈ cs, flatComp fuel d P prim inject fv c = .ok c') ∧
+      (∀ c ∈ cs, ∃ c' ∈ cs', flatComp fuel d P prim inject fv c = .ok c') := by
+  intro cs
+  induction cs with
+  | nil =>
+    intro cs' h
+    simp only [flatComps, Except.ok.injEq] at h
+    subst h
+    simp
+  | cons c r ih =>
+    intro cs' h
+    simp only [flatComps] at h
+    cases hc : flatComp fuel d P prim inject fv c with
+    | error e => rw [hc] at h; cases h
+    | ok c1 =>
+      rw [hc] at h
+      cases hr : flatComps fuel d P prim inject fv r with
+      | error e => rw [hr] at h; cases h
+      | ok r' =>
+        rw [hr] at h
+        simp only [Except.ok.injEq] at h
+        subst h
+        obtain ⟨ih1, ih2⟩ := ih r' hr
+        constructor
+        · intro c' hc'
+          rcases List.mem_cons.mp hc' with h0 | h0
+          · subst h0; exact ⟨c, by simp, hc⟩
+          · obtain ⟨c0, hm, he⟩ := ih1 c' h0
+            exact ⟨c0, by simp [hm], he⟩
+        · intro c0 hc0
+          rcases List.mem_cons.mp hc0 with h0 | h0
+          · subst h0; exact ⟨c1, by simp, hc⟩
+          · obtain ⟨c', hm, he⟩ := ih2 c0 h0
+            exact ⟨c', by simp [hm], he⟩
+
+/-- **flatten_sibling_isolation**: in `instance()` the flattened form of a component (its variables resolved
+in the context global < stage < the component's OWN variables, its options, its override) is a function of the
+platforms, blueprints, variables of the description and of the component's own body: no other component of
+the stage - whichever the fold visited before - contributes a variable to its context. -/
+theorem flatten_sibling_isolation (fuel : Nat) (d d' : Desc) (P : S) (prim inject : Bool) (fv : FlatVars) (c : Comp)
+    (h1 : d'.platforms = d.platforms) (h2 : d'.blueprint = d.blueprint) (h3 : d'.variables = d.variables) :
+    flatComp fuel d' P prim inject fv c = flatComp fuel d P prim inject fv c := by
+  unfold flatComp
+  rw [sibling_isolation d d' P c ⟨true, false, prim, inject⟩ fuel h1 h2 h3]
+
+/-- **flatten_components_pointwise**: a successful `instance()` is, component by component, `flatComp` with
+ONE set of flattened variable sections (computed from the variable sections of the description alone) -/
+theorem flatten_components_pointwise (fuel : Nat) (d fd : Desc) (P : S) (prim inject : Bool)
+    (h : flatten fuel d P prim inject = .ok fd) :
+    ∃ fv, flatVars fuel d P prim = .ok fv ∧
+      (∀ c' ∈ fd.comps, ∃ c ∈ d.comps, flatComp fuel d P prim inject fv c = .ok c') ∧
+      (∀ c ∈ d.comps, ∃ c' ∈ fd.comps, flatComp fuel d P prim inject fv c = .ok c') := by
+  unfold flatten at h
+  split at h
+  · cases h
+  · split at h
+    · cases h
+    · rename_i fv hv
+      split at h
+      · cases h
+      · rename_i comps hc
+        split at h
+        · cases h
+        · split at h
+          · cases h
+          · simp only [Except.ok.injEq] at h
+            subst h
+            exact ⟨fv, hv, flatComps_pointwise fuel d P prim inject fv d.comps comps hc⟩
+
+private def sibBody (n : S) (vars : Fields) (args : String) : Fields :=
+  [("stage".toList, .int 0), ("name".toList, .str n),
+   ("command".toList, .dict [("arguments".toList, .str args.toList)]),
+   ("variables".toList, .dict vars)]
+
+/-- two siblings of one stage: `alpha` privately shadows `left` and reaches `right` through one of its own
+variables, `beta` privately shadows `right` and reaches `left` -/
+private def dSib : Desc :=
+  { platforms := [defaultName], blueprint := [],
+    variables := [(defaultName, { global := [("left".toList, .str "GL".toList), ("right".toList, .str "GR".toList)],
+                                  stages := [] })],
+    comps := [⟨0, "alpha".toList, sibBody "alpha".toList
+                [("left".toList, .str "A".toList), ("uses".toList, .str "%(right)s".toList)] "%(uses)s"⟩,
+              ⟨0, "beta".toList, sibBody "beta".toList
+                [("right".toList, .str "B".toList), ("uses".toList, .str "%(left)s".toList)] "%(uses)s"⟩] }
+
+/-- … through the fold each of them resolves its chain to the GLOBAL value: the private variable of the
+sibling is invisible, in whichever order the two are flattened -/
+example :
+    (match flatten 60 dSib defaultName false true with
+     | .ok fd => (argumentsOf (resolve fd defaultName 0 "alpha".toList false 60),
+                  argumentsOf (resolve fd defaultName 0 "beta".toList false 60))
+     | .error _ => ([], [])) = ("GR".toList, "GL".toList) ∧
+    (match flatten 60 { dSib with comps := dSib.comps.reverse } defaultName false true with
+     | .ok fd => (argumentsOf (resolve fd defaultName 0 "alpha".toList false 60),
+                  argumentsOf (resolve fd defaultName 0 "beta".toList false 60))
+     | .error _ => ([], [])) = ("GR".toList, "GL".toList) := by
+  decide +kernel
+
+private def fileA : UserVars :=
+  { global := [("g1".toList, .str "A".toList), ("shared".toList, .str "A".toList)],
+    stages := [(0, [("keep".toList, .str "A".toList), ("shadow".toList, .str "A".toList)]),
+               (1, [("keep".toList, .str "A1".toList)])] }
+private def fileB : UserVars :=
+  { global := [("g2".toList, .str "B".toList), ("shared".toList, .str "B".toList)],
+    stages := [(0, [("shadow".toList, .str "B".toList)])] }
+
+private theorem plain_fileA : PlainUser fileA := plainUser_of_B fileA (by decide)
+
+/-- the hypothesis of `user_files_eq_spec` is satisfiable by a file with two stage sections -/
+example : PlainUser fileA := plain_fileA
+
+/-- two files with a section for the SAME stage: the later one shadows `shadow` only, `keep` of the earlier
+file survives; the sections of other stages and the global names of both files are all there -/
+example :
+    Tree.get (stageOf (layerUserFiles [fileA, fileB]) 0) "keep".toList = some (.str "A".toList) ∧
+    Tree.get (stageOf (layerUserFiles [fileA, fileB]) 0) "shadow".toList = some (.str "B".toList) ∧
+    Tree.get (stageOf (layerUserFiles [fileA, fileB]) 1) "keep".toList = some (.str "A1".toList) ∧
+    Tree.get (layerUserFiles [fileA, fileB]).global "g1".toList = some (.str "A".toList) ∧
+    Tree.get (layerUserFiles [fileA, fileB]).global "g2".toList = some (.str "B".toList) ∧
+    Tree.get (layerUserFiles [fileA, fileB]).global "shared".toList = some (.str "B".toList) := by
+  refine ⟨by rfl, by rfl, by rfl, by rfl, by rfl, by rfl⟩
 
 end St4sd.C04
